@@ -127,6 +127,8 @@ func (ex *Exec) callWith(f *frame, st *State, instr ssa.Instruction, cc *ssa.Cal
 			ex.setResult(f, res, ex.freshResults(f, st, sig, hint))
 			ex.note("dynamic call of function value in " + funcName(f.fn) + " (havoc of signature-compatible functions' inferred write sets)")
 		}
+		dyn := ex.get(st, "G:dyncalls", SInt)
+		ex.set(st, "G:dyncalls", app(SInt, "+", dyn, intLit(1)))
 		calls2 := ex.get(st, callsC, arraySort(SInt, SInt))
 		ex.set(st, callsC, store(calls2, fv, app(SInt, "+", sel(calls2, fv), intLit(1))))
 		return
